@@ -970,6 +970,11 @@ class VN:
             kws = [T.app("kw:" + kk, self._as_term(vv)) for kk, vv in sorted(kw.items())
                    if not (kk == "order" and vv == T.sym("'C'", real=True))]
             return T.app(attr, self._as_term(v), *[self._as_term(a) for a in args], *kws)
+        if attr == "sum" and isinstance(f.value, (ast.Name, ast.Attribute, ast.Subscript, ast.Call, ast.BinOp)):
+            v = self.ev(f.value, st)
+            if isinstance(v, T.Poly):   # x.sum(...) is np.sum(x, ...)
+                extra = [T.app("kw:" + kk, self._as_term(vv)) for kk, vv in sorted(kw.items())] + [self._as_term(x) for x in args]
+                return self.lin_sum(v, extra)
         if attr in ("max", "min", "sum", "mean", "any", "all") and isinstance(f.value, (ast.Name, ast.Attribute, ast.Subscript, ast.Call, ast.BinOp)):
             v = self.ev(f.value, st)
             return T.app(attr, self._as_term(v), *[self._as_term(a) for a in args],
@@ -1014,6 +1019,12 @@ class VN:
         isP = isinstance(a0, P)
         if short == "sqrt" and isP:
             return T.power(a0, Fr(1, 2))
+        if short == "square" and isP and len(args) == 1:
+            return T.power(a0, 2)
+        if short == "clip" and len(args) == 3 and isP and args[2] == NONE and not kw:
+            return T.app("max", a0, self._as_term(args[1]))   # clip(a, lo, None) is maximum(a, lo)
+        if short == "clip" and len(args) == 3 and isP and args[1] == NONE and not kw:
+            return T.app("min", a0, self._as_term(args[2]))
         if short in ("abs", "absolute", "fabs") and isP:
             return T.abs_(a0)
         if short == "real" and isP:
